@@ -9,7 +9,8 @@ def run(tier):
     chk = Check("C02", tier, "proof",
                 "every part of  a*b, a/b, a+b, a-b, -a  (8 types, every presence pattern of optional parts) is "
                 "normalised to a canonical polynomial/Laurent form over the operand parts and compared with the "
-                "part obtained by formal differentiation (Leibniz, quotient rule) of the real expression",
+                "part obtained by formal differentiation (Leibniz, quotient rule) of the real expression; the same for every other "
+                "form of these operations between two dual numbers (owned/borrowed operand mixes, compound assignment, Neg, Inv)",
                 assumptions=["identities are over the reals (commutative ring with inverses); rounding is not decided",
                              "the inner number type T is an abstract commutative ring"],
                 trusted_base=["rustc type checker and name resolution", "ndv-export fact exporter",
@@ -18,8 +19,12 @@ def run(tier):
     for p in check_grading_against_adts(F):
         chk.undecide("grading", p)
     algebra.check_arith(chk, F)
-    from . import container
+    from . import container, c08
     container.check_L1(chk, F)
+    # every syntactic form of the operations between two dual numbers (owned / borrowed operands, compound assignment, Neg, Inv)
+    for ty in TYPES:
+        c08.check_type(chk, F, ty, thorough=False, dual_only=True)
+    chk.floor("operator/conversion impls", chk.analysed.get("operator/conversion impls", 0), 8 * 22)
     chk.floor("binary operator bodies", chk.analysed.get("binary operator bodies", 0), 32)
     chk.floor("unary operator bodies", chk.analysed.get("unary operator bodies", 0), 8)
     return chk.finish()
